@@ -37,7 +37,7 @@ def jobs(tier, seed, prop):
     else:
         rules = ["localp", dy[1 + seed % 3]]
         LV, LVS, LX = 10, 12, 10
-    want = {"C01": ("delta",), "C03": ("delta", "affine"), "C04": ("support", "nested")}.get(prop, ("delta", "support", "nested", "affine"))
+    want = {"C01": ("delta",), "C03": ("delta", "affine"), "C04": ("support", "nested"), "C05": ("diff",)}.get(prop, ("delta", "support", "nested", "affine"))
     for rule in rules:
         orders = (0,) if rule == "pwc" else (1, 2, 3)
         for kind in want:
@@ -46,8 +46,12 @@ def jobs(tier, seed, prop):
             ords = orders if kind in ("delta", "affine") else ((2,) if tier == "quick" and rule != "pwc" else orders)
             if kind == "nested":
                 ords = (orders[0],)
+            if kind == "diff":
+                if rule == "pwc":
+                    continue
+                ords = (2,) if rule == "semilocalp" else (1, 2)
             for o in ords:
-                sub = {"R": rule, "O": o, "LV": LVS if kind in ("support", "nested") else LV, "LX": 8 if (rule == "semilocalp" and tier == "quick") else LX,
+                sub = {"R": rule, "O": o, "LV": (6 if tier == "quick" else 8) if kind == "diff" else (LVS if kind in ("support", "nested") else LV), "LX": (6 if tier == "quick" else 8) if kind == "diff" else (8 if (rule == "semilocalp" and tier == "quick") else LX),
                        "SF": ("2.0" if kind == "nested" else "1.0") if rule == "pwc" else "1.0", "NK": NK[rule], "ISB": 1 if rule == "localpb" else 0}
                 cf = ContractFile("contracts/basis.c", sub)
                 lemma = "lemma_%s_%s" % (kind, rule)
@@ -55,7 +59,7 @@ def jobs(tier, seed, prop):
                 ctext, info = rulelocal.emit(R, rules=[rule])
                 info["rules_fired"] = {k: v for k, v in R.counts.items() if v}
                 ltxt = cf.text(("lemma",), [lemma])
-                args = {"delta": ["a_p", "a_q"], "support": ["a_p", "a_x"], "nested": ["a_p", "a_kn"], "affine": ["a_i"]}[kind]
+                args = {"delta": ["a_p", "a_q"], "support": ["a_p", "a_x"], "nested": ["a_p", "a_kn"], "affine": ["a_i"], "diff": ["a_p", "a_i"]}[kind]
                 lvl = sub["LV"]
                 out.append(Job("basis.%s.%s.o%d" % (kind, rule, o),
                                ctext + "int tsg_exc;\ndouble diffPWPower_%s(int a, int b, double c){ return 0.0; }\n" % rule + '#line 1 "/verif/contracts/basis.c"\n' + ltxt + cf.text(("harness",), ["h_" + lemma]),
@@ -64,8 +68,8 @@ def jobs(tier, seed, prop):
                                timeout=900 if tier == "quick" else 3000,
                                backends=[[], ["--sat-solver", "cadical"]],
                                functions=["%s:%d %s<%s>" % (f["file"], f["line"], f["name"], rule) for f in info["functions"]], info=info,
-                               bounded="point indices < 2^%d (solver time); x is ANY double of the canonical domain [-1,1] in the support lemma" % lvl if kind != "affine" else "dyadic lattice x = i * 2^-%s" % sub["LX"],
+                               bounded="point indices < 2^%d (solver time); x is ANY double of the canonical domain [-1,1] in the support lemma; lattice x = i*2^-%s in the derivative lemma" % (lvl, sub["LX"]) if kind != "affine" else "dyadic lattice x = i * 2^-%s" % sub["LX"],
                                replay=make_replay(prop, rule, lemma, ltxt, args),
                                label="%s for rule %s, order %d" % ({"delta": "L1/L5 hierarchical delta property", "support": "L4/L6a support radius and pruning test",
-                                                                    "nested": "L6b nested support intervals", "affine": "L3 affine reproduction on a dyadic lattice"}[kind], rule, o)))
+                                                                    "nested": "L6b nested support intervals", "affine": "L3 affine reproduction on a dyadic lattice", "diff": "C05 exact finite-difference identity of diffSupport on a dyadic lattice"}[kind], rule, o)))
     return out
